@@ -779,3 +779,67 @@ def rule_pad_body(ctx, cd, which: str, rule_id: str):
             adv = re.search(r"offset_bits \+= " + gap + r";", text) is not None
             ctx.ob(rule_id, t.rel, "c: serializer padding: cursor advanced by the gap", adv, "", None)
     ctx.floor(rule_id, n, 2)
+
+
+# ---- Python: aligned accessors only where the compile-time offset set is byte aligned -------------------------------------------
+def rule_py_align(ctx, cd, px, which: str, rule_id: str):
+    """The Python (de)serializer has aligned and unaligned accessors; the aligned ones assert byte alignment of the cursor.  The
+    templates choose by the compile-time offset set of the item that is written / read."""
+    import ast
+
+    ctx.rule(
+        rule_id,
+        "Python: an accessor whose name is spelled `..._aligned_...` in the template is emitted only on paths where the macro's own "
+        "offset is byte aligned (or for the delimiter header of a composite, which is byte aligned by its alignment requirement); an "
+        "accessor chosen by `| alignment_prefix` is chosen from the offset of the very item it handles - the macro's offset, or "
+        "offset + length-prefix width for the elements of a variable-length array; alignment_prefix answers 'aligned' exactly when "
+        "the set is aligned at byte",
+    )
+    t = cd.tmpl("py", which)
+    obj = "_ser_" if which == "ser" else "_des_"
+    verb = "add" if which == "ser" else "fetch"
+    n = 0
+    for mname, mac in sorted(cd.ts.macros(t).items()):
+        if not mname.startswith(("_serialize", "_deserialize")):
+            continue
+        seen = set()
+        for p in cd.paths("py", which, mname):
+            ph = dict(p.ph)
+            for m in re.finditer(rf"{obj}\.{verb}_(Pz\d+z|aligned|unaligned)_?(\w*)", p.text):
+                sel, rest = m.group(1), m.group(2)
+                if sel == "unaligned":
+                    continue      # always allowed
+                if sel == "aligned":
+                    composite_hdr = any(("CompositeType" in c or "DelimitedType" in c) and pol for c, pol in p.conds) and rest.startswith("u32")
+                    ok = any(c in ("offset.is_aligned_at_byte()", "(offset.is_aligned_at_byte())") and pol for c, pol in p.conds) or \
+                        any("offset.is_aligned_at_byte()" in c and pol and " or " not in c for c, pol in p.conds) or composite_hdr
+                    key = (mname, "lit", rest, ok)
+                    if key in seen:
+                        continue
+                    seen.add(key)
+                    n += 1
+                    ctx.ob(rule_id, t.rel, f"py: {mname}: `{verb}_aligned_{rest}` only where the offset is byte aligned", ok,
+                           "" if ok else f"emitted under {[c for c, pol in p.conds if pol][-3:]}: at an unaligned offset the aligned accessor asserts / writes at the wrong bit", None)
+                else:
+                    k = str(ph.get(sel, ""))
+                    mm = re.fullmatch(r"\((.*) \| alignment_prefix\)", k)
+                    arg = mm.group(1) if mm else None
+                    vla_elems = "VariableLengthArray" in mname or "variable_length_array" in mname
+                    after_prefix = ("(offset + t.length_field_type.bit_length)", "(t.length_field_type.bit_length + offset)")
+                    if vla_elems and rest.lstrip("_").startswith("array_of"):
+                        ok = arg in after_prefix        # the elements start after the length prefix
+                    else:
+                        ok = arg == "offset"
+                    key = (mname, "sel", arg, rest)
+                    if key in seen:
+                        continue
+                    seen.add(key)
+                    n += 1
+                    ctx.ob(rule_id, t.rel, f"py: {mname}: `{verb}_<{arg}|alignment_prefix>_{rest}` is chosen from the offset of the item itself", ok,
+                           "" if ok else f"the accessor is chosen from `{arg}`, which is not the offset at which this item starts", None)
+    ctx.floor(rule_id, n, 5)
+    g = px.func("nunavut.jinja", "DSDLCodeGenerator.filter_alignment_prefix")
+    rets = [ast.unparse(r.value).replace(" ", "") for r in ast.walk(g.node) if isinstance(r, ast.Return) and r.value is not None]
+    o = g.node.args.args[0].arg
+    ok = rets in ([f"'aligned'if{o}.is_aligned_at_byte()else'unaligned'"], [f"'unaligned'ifnot{o}.is_aligned_at_byte()else'aligned'"])
+    ctx.ob(rule_id, g.module.rel, f"{g.short} :: 'aligned' exactly when the offset set is aligned at byte", ok, f"{rets}", g.node.lineno)
